@@ -100,3 +100,7 @@ pub fn vx_push_lower(s: &mut String, c: char) ensures final(s)@ == old(s)@ + low
 pub fn vx_is_ascii_punct(c: char) -> (r: bool) ensures r == is_ascii_punct(c) { unimplemented!() }
 #[verifier::external_body]
 pub fn vx_is_ws(c: char) -> (r: bool) ensures r == is_ws_char(c) { unimplemented!() }
+#[verifier::external_body]
+pub fn vx_starts_with(s: &str, p: &str) -> (r: bool) ensures r == p@.is_prefix_of(s@) { unimplemented!() }
+#[verifier::external_body]
+pub fn vx_ends_with(s: &str, p: &str) -> (r: bool) ensures r == p@.is_suffix_of(s@) { unimplemented!() }
